@@ -163,6 +163,18 @@ class Shadow:
         return True
 
 
+def corpus_histories(prop):
+    """minimised witnesses of the tie (corpus/<prop>/iosession/*.json, run first)"""
+    import json
+    d = os.path.join(core.CORPUS_DIR, prop, "iosession")
+    res = []
+    if os.path.isdir(d):
+        for f in sorted(os.listdir(d)):
+            if f.endswith(".json"):
+                res.append(json.load(open(os.path.join(d, f)))["history"])
+    return res
+
+
 # ----------------------------------------------------------------------------- self test of the tie
 
 def self_test():
@@ -292,8 +304,7 @@ def failed_load_family(ctx, out, stats):
     """sessions for C14: 0-3 open models with data in files (relative, external csv, external workbook sheets,
     external module), then a load that fails after the IOSpecs were read (or succeeds), then closes / a second load"""
     kinds = ["rel", "abs", "book", "mod"]
-    plans = [
-        {"bystanders": [["abs"]], "external": False, "damage": "data", "then": []},
+    plans = [h[0] for h in corpus_histories("C14")] + [
         {"bystanders": [["rel", "abs"], ["book", "book", "mod"]], "external": True, "damage": "data", "then": ["close0"]},
         {"bystanders": [], "external": True, "damage": "data", "then": ["reload"]},
         {"bystanders": [["abs"], ["abs"]], "external": False, "damage": "none", "then": ["close2", "close0"]},
